@@ -439,7 +439,7 @@ example : (run (C11ex.file.write [7, 8, 9]) C11ex.dev16).2.log = [.write 2560 [7
 /-- `Table.set` of the FAT16 entry of cluster 3 through the FAT slice: the same two bytes at relative offset 6 of both
     copies (518 = 512 + 6, 1030 = 512 + 512 + 6), the status byte after the first -/
 example : (run (Table.set DiskSlice.strm .fat16 (fatSliceOf C11ex.fs16) 3 .eoc) C11ex.dev16).2.log =
-    [.write 1030 [255, 255], .write 37 [1], .write 518 [255, 255]] := by decide +kernel
+    [.write 1030 [255, 255], .write 518 [255, 255], .write 37 [1]] := by decide +kernel
 
 theorem C11ex.view_free (c : Nat) : imgFatView C11ex.fs16 C11ex.dev16.img c = .free := by
   simp [imgFatView, imgFatRaw, C11ex.fs16, C11ex.dev16, Img.le16, Img.getByte_empty, Table.classify]
